@@ -82,6 +82,7 @@ func genACond(r *lib.Rng) ACond {
 	}
 	return ACond{K: "vgt", A: int64(r.Range(0, 6))}
 }
+
 type Lop struct {
 	Kind string `json:"kind"` // limit | offset
 	N    int64  `json:"n"`
@@ -93,35 +94,37 @@ type Input struct {
 	Ord  string `json:"ord"` // none | id_asc | id_desc | v_asc
 	Lops []Lop  `json:"lops"`
 	BS   int64  `json:"bs"` // 0 = FindInBatches not run
+	// PtrBatch: FindInBatches fills a slice of pointers instead of a slice of structs
+	PtrBatch bool `json:"ptr_batch,omitempty"`
 }
 
 type Obs struct {
-	Find      []Row   `json:"find"`
-	FindRA    int64   `json:"find_ra"`
-	Maps      []Row   `json:"maps"`
-	Rows      []Row   `json:"rows"`
-	Scan      []Row   `json:"scan"`
-	PluckID   []int64 `json:"pluck_id"`
-	PluckV    []int64 `json:"pluck_v"`
-	Count     int64   `json:"count"`
-	First     *Row    `json:"first"`
-	Last      *Row    `json:"last"`
-	Take      *Row    `json:"take"`
-	Batches   [][]Row `json:"batches"`
-	BatchesRA int64   `json:"batches_ra"`
-	Ptrs      []Row   `json:"ptrs"`
-	Array     []Row   `json:"array"`
-	Single    *Row    `json:"single"`
-	SingleRA  int64   `json:"single_ra"`
-	Prim      *int64  `json:"prim"`
-	PrimRA    int64   `json:"prim_ra"`
-	ScanMaps   []Row  `json:"scan_maps"`
-	ScanMapsRA int64  `json:"scan_maps_ra"`
-	RowsMaps   []Row  `json:"rows_maps"`
-	FirstMap   *Row   `json:"first_map"`
-	LastMap    *Row   `json:"last_map"`
-	TakeMap    *Row   `json:"take_map"`
-	Errs      []string `json:"errs"`
+	Find       []Row    `json:"find"`
+	FindRA     int64    `json:"find_ra"`
+	Maps       []Row    `json:"maps"`
+	Rows       []Row    `json:"rows"`
+	Scan       []Row    `json:"scan"`
+	PluckID    []int64  `json:"pluck_id"`
+	PluckV     []int64  `json:"pluck_v"`
+	Count      int64    `json:"count"`
+	First      *Row     `json:"first"`
+	Last       *Row     `json:"last"`
+	Take       *Row     `json:"take"`
+	Batches    [][]Row  `json:"batches"`
+	BatchesRA  int64    `json:"batches_ra"`
+	Ptrs       []Row    `json:"ptrs"`
+	Array      []Row    `json:"array"`
+	Single     *Row     `json:"single"`
+	SingleRA   int64    `json:"single_ra"`
+	Prim       *int64   `json:"prim"`
+	PrimRA     int64    `json:"prim_ra"`
+	ScanMaps   []Row    `json:"scan_maps"`
+	ScanMapsRA int64    `json:"scan_maps_ra"`
+	RowsMaps   []Row    `json:"rows_maps"`
+	FirstMap   *Row     `json:"first_map"`
+	LastMap    *Row     `json:"last_map"`
+	TakeMap    *Row     `json:"take_map"`
+	Errs       []string `json:"errs"`
 }
 
 func chain(db *gorm.DB, in Input) *gorm.DB {
@@ -342,7 +345,18 @@ func run(db *gorm.DB, in Input) Obs {
 	o.Batches = [][]Row{}
 	if in.BS > 0 {
 		var batch []Item
-		r := chain(db, in).FindInBatches(&batch, int(in.BS), func(tx *gorm.DB, n int) error {
+		var pbatch []*Item
+		var dest interface{} = &batch
+		if in.PtrBatch {
+			dest = &pbatch
+		}
+		r := chain(db, in).FindInBatches(dest, int(in.BS), func(tx *gorm.DB, n int) error {
+			if in.PtrBatch {
+				batch = batch[:0]
+				for _, p := range pbatch {
+					batch = append(batch, *p)
+				}
+			}
 			if len(o.Batches) > len(in.Tbl)+3 {
 				return fmt.Errorf("runaway: more batches than rows")
 			}
@@ -363,8 +377,8 @@ func run(db *gorm.DB, in Input) Obs {
 
 // ---- Gallina printing ----
 
-func gRow(r Row) string      { return lib.Pair(lib.Z(r.ID), lib.Z(r.V)) }
-func gRows(rs []Row) string  { return lib.ListOf(rs, gRow) }
+func gRow(r Row) string     { return lib.Pair(lib.Z(r.ID), lib.Z(r.V)) }
+func gRows(rs []Row) string { return lib.ListOf(rs, gRow) }
 func gORow(r *Row) string {
 	if r == nil {
 		return "None"
@@ -494,7 +508,7 @@ func shape(in Input) string {
 	for _, l := range in.Lops {
 		fmt.Fprintf(&sb, "%s%d,", l.Kind[:1], l.N)
 	}
-	fmt.Fprintf(&sb, "|bs%d", in.BS)
+	fmt.Fprintf(&sb, "|bs%d%v", in.BS, in.PtrBatch)
 	return sb.String()
 }
 
@@ -569,7 +583,7 @@ func main() {
 						if (n+int(bs)+int(l)+int(of))%3 == 0 {
 							c = Cond{Kind: "mod", A: 2, B: 1}
 						}
-						add("grid", Input{Tbl: tbl, Cond: c, Ord: "none", Lops: lops, BS: bs})
+						add("grid", Input{Tbl: tbl, Cond: c, Ord: "none", Lops: lops, BS: bs, PtrBatch: (n+int(bs))%4 == 1})
 					}
 				}
 			}
@@ -590,6 +604,15 @@ func main() {
 		}
 		in := Input{Tbl: genTable(r, n), Cond: genCond(r), Lops: genLops(r, edge)}
 		in.Ord = lib.Pick(r, []string{"none", "none", "id_asc", "id_desc", "v_asc"})
+		if in.Ord == "none" && in.Cond.Kind == "seq" {
+			// without ORDER BY the row order is the database's choice, and SQLite answers an OR of
+			// two key ranges index by index: such chains always carry an explicit order
+			for _, c := range in.Cond.Seq {
+				if c.Call == "or" {
+					in.Ord = "id_asc"
+				}
+			}
+		}
 		if in.Ord == "none" || in.Ord == "id_asc" {
 			if r.Chance(4, 5) {
 				in.BS = int64(r.Range(1, 6))
@@ -599,6 +622,7 @@ func main() {
 						in.BS = 1
 					}
 				}
+				in.PtrBatch = r.Chance(1, 3)
 			}
 		}
 		kind := "main"
